@@ -1273,12 +1273,10 @@ Lemma path_of_transfer : forall l1 l2 pin,
 Proof. intros l1 l2 pin H Hp. destruct pin; cbn [path_of] in *; rewrite H; exact Hp. Qed.
 
 (* ================================================================ the statements of C09 *)
-Section Advertised.
-  (* an advertisement made by process_nlri_change (the code of the working tree) *)
-  Definition advertised (x : ectx) (pol : policy_fn) (emax : N) (raddr : ipaddr) (cid : option N)
+(* an advertisement made by process_nlri_change (the code of the working tree) *)
+Definition advertised (x : ectx) (pol : policy_fn) (emax : N) (raddr : ipaddr) (cid : option N)
              (c : change) (e : emap) (d pid : N) (nh : option nexthop) (out : list attr) (s : source) : Prop :=
-    exists r, process_change x pol emax raddr cid c e = Ok r /\ In (Reach d pid nh out s) (fst r).
-End Advertised.
+  exists r, process_change x pol emax raddr cid c e = Ok r /\ In (Reach d pid nh out s) (fst r).
 
 (* (1) never back to the peer the route was learned from *)
 Theorem C09_no_echo : forall x pol emax raddr cid c e d pid nh out s,
